@@ -408,20 +408,76 @@ EXTERNALS = {
 }
 
 
+def _np_array_copy(eng, st, fr, recv, args, kwargs):
+    """numpy.array(x, dtype): a NEW array object with the contents of x (copy=True is the default)."""
+    import z3
+    src = args[0]
+    o = eng.new_obj(st, 'ndarray', 'arr', 'real', 2, name='copy')
+    for fid in ('$n0', '$n1'):
+        st.heap[fid] = z3.Store(eng.field(st, fid), o.ref, z3.Select(eng.field(st, fid), src.ref))
+    st.heap['$d2:real'] = z3.Store(eng.field(st, '$d2:real'), o.ref, z3.Select(eng.field(st, '$d2:real'), src.ref))
+    return o
+
+
+def register_multiplet_constructor(reg):
+    """The multiplet table is validated once, at construction; the model must therefore keep a PRIVATE copy of it (numpy.array copies;
+    numpy.ascontiguousarray / asarray return the caller's own array when it already has the right layout and type)."""
+    ext = {'array': {'kind': 'custom', 'fn': _np_array_copy, 'doc': 'numpy.array(x, dtype=float64): new array, same contents'},
+           'ascontiguousarray': {'kind': 'custom', 'fn': lambda eng, st, fr, recv, args, kwargs: args[0],
+                                 'doc': 'numpy.ascontiguousarray(x): x itself when x is already a C-contiguous array of that dtype (no copy)'},
+           'asarray': {'kind': 'custom', 'fn': lambda eng, st, fr, recv, args, kwargs: args[0], 'doc': 'numpy.asarray(x): x itself for an ndarray of that dtype'},
+           '.sum': {'kind': 'pure', 'result': 'real', 'doc': 'ndarray.sum()'}}
+    reg.contract(M, "MultipletLineShape.__init__", PROP, name='table', flags={'stmts_from': 'multiplet = np.array(multiplet, dtype=np.float64)'},
+        sorts={"multiplet": "arr:real:2"}, attrs={"_multiplet": "arr:real:2", "_multiplet_mv": "arr:real:2"}, externals=ext,
+        requires=["not is_none(multiplet)"], raises_any=["ValueError"],
+        ensures=[("private_copy", "not same(self._multiplet, multiplet) and same(self._multiplet_mv, self._multiplet)"),
+                 ("same_contents", "self._multiplet.shape[0] == multiplet.shape[0] and self._multiplet.shape[1] == multiplet.shape[1] and "
+                  "forall((a, b), self._multiplet[a, b] == multiplet[a, b])"),
+                 ("number_of_lines", "self._number_of_lines == multiplet.shape[1] and multiplet.shape[0] == 2")])
+
+
 _register_lines = register
 
 
 def register(reg):
     _register_lines(reg)
     register_quadrature(reg)
+    register_multiplet_constructor(reg)
 
 
 def native_replay(ctx, o):
     """GaussianQuadrature obligations: integrators configured through the setters (every order of raising / lowering min_order and
     max_order) must integrate like one configured through the constructor, and integrate polynomials exactly."""
+    from replaylib.native import run_native
+    if 'MultipletLineShape.__init__' in o.name:
+        # the caller re-uses his table array after constructing the model: the model must keep producing the multiplet it was given
+        code = """
+import numpy as np
+from raysect.optical import World, Point3D, Vector3D, Spectrum
+from cherab.core.atomic import Line, hydrogen, AtomicData
+from cherab.core.model import MultipletLineShape
+from cherab.tools.plasmas.slab import build_slab_plasma
+plasma = build_slab_plasma(peak_density=5e19, parent=World())
+line = Line(hydrogen, 0, (3, 2)); sp = plasma.composition.get(hydrogen, 0)
+table = np.array([[656.0, 656.3, 656.9], [0.2, 0.5, 0.3]], dtype=np.float64)
+pristine = table.copy()
+m = MultipletLineShape(line, 656.3, sp, plasma, AtomicData(), table)
+def spec(model):
+    s = Spectrum(650., 662., 600); model.add_line(3.0, Point3D(0.5, 0, 0), Vector3D(1, 0, 0), s); return s.samples.copy()
+first = spec(m)
+table[0, :] = [500.0, 501.0, 502.0]; table[1, :] = [70.0, 0.5, 0.25]
+second = spec(m)
+fresh = spec(MultipletLineShape(line, 656.3, sp, plasma, AtomicData(), pristine))
+ok = bool(np.allclose(second, fresh, rtol=1e-12, atol=0) and np.allclose(first, fresh, rtol=1e-12, atol=0))
+print(json.dumps({"integral_before_caller_reuses_table": float(first.sum() * 0.02), "integral_after": float(second.sum() * 0.02),
+                  "integral_fresh_model": float(fresh.sum() * 0.02), "equal": ok}))
+"""
+        out = run_native(ctx, code, timeout=300)
+        return {'confirmed': bool(out) and out.get('equal') is False, 'observed': out,
+                'input': 'MultipletLineShape(..., table); then table[...] = other values (in place); add_line()',
+                'expected': 'same spectrum as a model built from a pristine copy of the table'}
     if 'GaussianQuadrature' not in o.name:
         return None
-    from replaylib.native import run_native
     code = """
 from cherab.core.math.integrators import GaussianQuadrature
 import math
